@@ -11,9 +11,13 @@ The server holds one resource with the fixed representation `rep` (ETag `etag`),
 Block1 request bodies by byte offset `num * 2**(szx+4)`, hands a completed body to the resource
 (`recorded`) and serves `rep` in Block2 slices.  In every exchange it may ask for / use any
 size exponent not larger than the request's (`choice`), so size reductions can happen at any
-block.  `mis` optionally makes it deviate once: violate a sequencing rule (MUST_ERROR), behave
+block.  A request of the upload phase may carry the client's size hint Block2 = (0, _, szx): the
+first block of the representation is then served at an exponent not above it (section 2.4).
+`mis` optionally makes it deviate once: violate a sequencing rule (MUST_ERROR), behave
 unusually but correctly (MUST_SUCCEED), or end the transfer itself with ONE response that is
-complete in CoAP terms (EXACT_REPLY: the caller must get exactly that response).
+complete in CoAP terms (EXACT_REPLY: the caller must get exactly that response).  What
+`ignore_block1` amounts to depends on the block it hits and on the code (see there): the server
+says which class applies (`klass`).
 """
 import collections
 import hashlib
@@ -31,10 +35,13 @@ TOO_LARGE = 141        # 4.13
 #   continue_no_block1  a 2.31 Continue WITHOUT Block1 option (to a non-final block, the final block or an
 #                       unfragmented request): a 2.31 is never a final response
 #   b2_szx_grows        a Block2 block with a larger size exponent than the request asked for (RFC 7959 2.4)
+#   first_above_hint    the FIRST block of the representation comes at a larger size exponent than the size hint
+#                       Block2 = (0, 0, szx) of the request asked for (with or without the more flag)
+#   ignore_block1       (when it hits a NON-final block with a SUCCESSFUL code, see below)
 MUST_ERROR = {"wrongnum1", "more_on_final", "continue_on_final", "b1_unfrag_more",
               "b1_unfrag_wrongnum", "etag_change", "short_block", "long_block", "gap", "dup",
               "unscaled", "first_nonzero", "first_late_final", "code_change",
-              "continue_no_block1", "b2_szx_grows"}
+              "continue_no_block1", "b2_szx_grows", "first_above_hint"}
 # unusual but harmless behaviour -> the transfer must still deliver both bodies
 #   observe_continue    an Observe option in an intermediate 2.31 (the client asked to observe the result): the
 #                       client drops that erroneous observation and goes on
@@ -42,10 +49,21 @@ MUST_SUCCEED = {None, "stateless_acks", "grow_szx", "observe_continue"}
 # The server itself ends the transfer with ONE response that is complete in CoAP terms; the caller must get
 # EXACTLY that response (code, ETag, payload) -- never a combination with blocks received before, and no further
 # block may be uploaded after it.  What each one is:
-#   ignore_block1   a NON-final Block1 block is answered as if it were the whole request: final (non-2.31) code, no
-#                   Block1 option, the representation (block-wise if large).  Such a server is not a conforming
-#                   RFC 7959 server, so "the body a conforming server reassembles" has no meaning for it; the
-#                   caller gets the server's own answer = (code, ETag, representation)
+#   ignore_block1   a Block1 block is answered as if it were a whole request: final (non-2.31) code `mis["code"]`
+#                   (default: the server's code), NO Block1 option.  Three situations, told apart by the server
+#                   (`klass`):
+#                     - a SUCCESSFUL code to a NON-final block (more flag set): Block1 is a critical option, a server
+#                       that does not know it answers 4.02 and one that does echoes it; the server has seen only a
+#                       part of the body, so this is a sequencing violation -> class "error" (the request must
+#                       end with an aiocoap error; reporting success would be "a truncated body reported as
+#                       success").  Until round 4 the verification had exempted this ("server ignored Block1,
+#                       the caller gets the server's answer"): a mistake, withdrawn.
+#                     - a successful code to the FINAL (or only) block: the whole body was sent and reassembled,
+#                       only the echo is missing -> class "exact": the caller gets (code, ETag, representation),
+#                       and the server has recorded the payload
+#                     - an UNSUCCESSFUL code (4.08, 4.13, 5.00 ...) to whatever block, with a diagnostic payload:
+#                       the request failed and the caller is told so -> class "exact": exactly that response,
+#                       nothing more is uploaded
 #   fail_mid        a non-final block is acknowledged 4.08 with Block1 (n, M=0): the upload failed (RFC 7959 2.9.2)
 #   fail_mid_noopt  a non-final block is answered 4.08 / 4.13 without any Block1 option
 #   hint_413        a 4.13 with a Block1 size hint to an unfragmented request (RFC 7959 2.9.3)
@@ -54,6 +72,10 @@ MUST_SUCCEED = {None, "stateless_acks", "grow_szx", "observe_continue"}
 EXACT_REPLY = {"ignore_block1", "fail_mid", "fail_mid_noopt", "hint_413", "drop_block2", "mid_404"}
 ENDS_UPLOAD = {"ignore_block1", "fail_mid", "fail_mid_noopt", "hint_413"}
 KINDS = sorted(MUST_ERROR | EXACT_REPLY | {"stall", "stateless_acks", "grow_szx", "observe_continue"})
+
+
+def is_successful(code):
+    return 64 <= code < 96
 
 
 def pattern(n, seed):
@@ -66,6 +88,8 @@ class RefServer:
         self.rep, self.etag, self.code = rep, etag, code
         self.observe_final = observe_final   # Observe value of the response that carries (block 0 of) rep
         self.expected = None        # EXACT_REPLY: (code, etag, payload) the caller must get
+        self.klass = None           # "error" / "exact": what a deviation amounts to where that depends on what it hit
+        self.hit_final = None       # ignore_block1: did it hit the final (or only) block?
         self.trigger_index = None   # index of the exchange that was tampered with
         self.choices, self.default_choice, self.limit = choices, default_choice, limit
         self.mis = mis or {}
@@ -177,11 +201,26 @@ class RefServer:
             if not cont and self._hit():
                 return Reply(CONTINUE, None, None, None, b"")
         elif k == "ignore_block1":
-            if rep.block1 is not None and rep.block1[1] and self._hit():
+            # every response that would carry a Block1 option is eligible: acknowledgements of non-final blocks
+            # and the response to the final / only block
+            if rep.block1 is not None and self._hit():
+                code = self.mis.get("code", self.code)
+                final = not rep.block1[1]
+                self.hit_final = final
+                if not is_successful(code):
+                    if final:
+                        self.recorded.pop()          # the resource did not take the body
+                    self.buf = b""
+                    self.klass = "exact"
+                    return self._exact(Reply(code, None, None, None, b"refused"[:self.mis.get("diag", 7)]))
+                self.code = code                      # ... also for the later blocks of the representation
+                if final:
+                    self.klass = "exact"
+                    self.expected = (self.code, self.etag, self.rep)
+                    return rep._replace(block1=None, code=code)
                 self.buf = b""
-                final = self._respond(payload, None, b2, choice)
-                self.expected = (self.code, self.etag, self.rep)
-                return final
+                self.klass = "error"
+                return self._respond(payload, None, b2, choice)
         elif k == "fail_mid":
             if rep.block1 is not None and rep.block1[1] and self._hit():
                 return self._exact(rep._replace(code=INCOMPLETE, block1=(rep.block1[0], False, rep.block1[2])))
@@ -252,6 +291,11 @@ class RefServer:
         elif k == "mid_404":
             if cont and rep.block2 is not None and self._hit():
                 return self._exact(Reply(NOT_FOUND, None, None, None, b"gone"))
+        elif k == "first_above_hint":
+            # the request carries the client's size hint and the first block comes larger than that
+            if not cont and b2 is not None and rep.block2 is not None and b2[2] < 6 and self._hit():
+                szx = min(6, b2[2] + self.mis.get("by", 1))
+                return self._slice(0, szx, rep.block1)._replace(observe=rep.observe)
         elif k == "b2_szx_grows":
             # only where the larger block is aligned with the requested offset, so that nothing but the
             # exponent is wrong with it
